@@ -62,7 +62,18 @@ func c10FileText(docs []int) string {
 }
 
 func c10RunYq(dir string, args ...string) (stdout, stderr string, exit int, err error) {
-	cmd := exec.Command(yqBin(), args...)
+	return c10RunCmd(dir, yqBin(), args...)
+}
+
+func clip(s string, n int) string {
+	if len(s) > n {
+		return s[:n] + "…"
+	}
+	return s
+}
+
+func c10RunCmd(dir string, bin string, args ...string) (stdout, stderr string, exit int, err error) {
+	cmd := exec.Command(bin, args...)
 	cmd.Dir = dir
 	cmd.Env = []string{"TZ=UTC", "PATH=/usr/bin:/bin", "HOME=" + dir}
 	var so, se bytes.Buffer
